@@ -105,7 +105,7 @@ Definition file_change (title : str) (s : st) : st :=
   let s2 := wo doc_footer s1 in
   let s2 := if custom_file_names s2 && has_slash (cid s2) then err "id contains a path separator and cannot be used as file name" s2 else s2 in
   let name := (if epub s2 then R "EPUB/" else []) ++ fprefix s2 ++ R "-" ++ chapname s2 ++ suffix s2 in
-  let s3 := s2 <| files ::= fun l => l ++ [(curfile s2, wout s2)] |> <| wout := [] |> <| curfile := name |> in
+  let s3 := s2 <| files ::= fun l => l ++ [(curfile s2, flat (wout s2))] |> <| wout := [] |> <| curfile := name |> in
   let s4 := wo (doc_header title s3) s3 in
   if epub s4 then s4 else
   let navc := (pcount (toc s4) + ccount (toc s4))%nat in
